@@ -986,8 +986,10 @@ def render_reviewed(tabs):
            "   special_rows_match_reviewed of Tables/OpCheck.v compares the regenerated bodies with these. *)\n"
            "From Coq Require Import List String.\nFrom PV Require Import Tables.OpSyntax.\nImport ListNotations.\n"
            "Local Open Scope string_scope.\n\n"]
+    ns_ = [f for f in tabs["node_funcs"] if (f["ns"], f["name"]) in (("functions", "split"), ("functions::batch", "split"))]
     out.append(g_funcs("rv_methods", ms) + "\n")
     out.append(g_funcs("rv_tensor_funcs", ts) + "\n")
+    out.append(g_funcs("rv_node_funcs", ns_) + "\n")
     out.append(g_funcs("rv_cache_delta", tabs.get("op_methods_cache_delta", [])) + "\n")
     return "".join(out)
 
